@@ -59,10 +59,7 @@ Absent(v)  == v.k \in {"unset", "none"}
 IsList(v)  == v.k = "list"
 ScalarKinds == {"str", "int", "float", "file"}
 
-RECURSIVE JoinWith(_, _)
-JoinWith(es, c) == IF Len(es) = 0 THEN << >>
-                   ELSE IF Len(es) = 1 THEN es[1]
-                   ELSE es[1] \o << c >> \o JoinWith(Tail(es), c)
+JoinWith(es, c) == FlattenSeq([k \in 1..Len(es) |-> IF k = 1 THEN es[k] ELSE << c >> \o es[k]])
 
 (* the value words: elements joined with the separator; a blank separator divides words *)
 ValueWords(es, sep) == IF sep = SP THEN es
@@ -171,6 +168,12 @@ Intact(def, vals, app) ==
 (***************************************************************************)
 (* AS-BUILT reference (named deviations; see known_findings.json)          *)
 (***************************************************************************)
+(* Named switches of the as-built reference.  When a finding is repaired in pydra, set its   *)
+(* switch to FALSE here: the as-built prediction then follows the documented semantics for  *)
+(* that aspect and the check requires the repaired behaviour.                               *)
+BuiltWith == [pos   |-> TRUE,     \* C22-implicit-position-gap : slot-numbered implicit positions
+              falsy |-> TRUE]     \* C22-falsy-scalar-dropped  : truthiness test on plain values
+
 IsWS(c)    == c \in {SP, TAB, NL, CR}
 IsStripWS(c) == c \in {SP, TAB, NL, CR, 11, 12}
 
@@ -204,8 +207,7 @@ ShlexStep(st, c) ==
          [st EXCEPT !.m = st.ret,
                     !.tok = IF st.ret = "dq" /\ c # BS /\ c # DQ THEN @ \o << BS, c >> ELSE Append(@, c)]
 
-RECURSIVE ShlexRun(_, _)
-ShlexRun(st, s) == IF s = << >> THEN st ELSE ShlexRun(ShlexStep(st, Head(s)), Tail(s))
+ShlexRun(st, s) == FoldLeft(ShlexStep, st, s)
 
 (* result: [err, ws];  err \in {"", "noclose", "noesc"} *)
 Shlex(s) ==
@@ -230,7 +232,7 @@ Filled(f, s)  == IF f.form = "eqtpl" THEN EqPrefix(f.id) \o s ELSE FlagWord(f.id
 (* the string built for one value (s, falsy) of a non-repeating field *)
 PlainString(f, s, falsy) ==
   IF IsTemplate(f) THEN Strip(Filled(f, s))
-  ELSE IF falsy THEN << >> ELSE ArgstrText(f) \o << SP >> \o s
+  ELSE IF falsy /\ BuiltWith.falsy THEN << >> ELSE ArgstrText(f) \o << SP >> \o s
 
 (* the string built for a list value of a repeating ("...") list field *)
 RepString(f, es) ==
@@ -263,7 +265,7 @@ AsBuilt(def, vals, app) ==
   IF AsBuiltRejects(def) THEN [rejected |-> TRUE, err |-> "", argv |-> << >>]
   ELSE LET per  == [i \in Idx(def) |-> AsBuiltField(def[i], vals[i])]
            bad  == { i \in Idx(def) : per[i].err # "" }
-           ord  == AsBuiltOrder(def)
+           ord  == IF BuiltWith.pos THEN AsBuiltOrder(def) ELSE IdealOrder(def)
        IN IF bad # {} THEN [rejected |-> FALSE, err |-> per[Min(bad)].err, argv |-> << >>]
           ELSE [rejected |-> FALSE, err |-> "",
                 argv |-> << EXE >> \o FlattenSeq([k \in 1..Len(ord) |-> per[ord[k]].ws]) \o app]
